@@ -157,28 +157,63 @@ Final(k, f, st, len) ==
 
 (***************************************************************************)
 (* Folding Step over a concrete byte tuple (trace validation).             *)
+(* RunSlow is the definition: one Step per byte.  Run takes runs of digits  *)
+(* inside a component in one stride (BulkDigits = what repeated Steps do);  *)
+(* MC_Scan checks Run = RunSlow on all short strings.  The consumed bytes   *)
+(* are recorded as segments << tag, lo, hi >>.                              *)
 (***************************************************************************)
-RECURSIVE RunFrom(_, _, _, _, _, _, _, _)
-RunFrom(k, f, o, s, n, i, st, tags) ==
-    IF i > n \/ st.ph \in {"R", "U"} THEN [st |-> st, tags |-> tags, stop |-> i]
+RECURSIVE SkipDigits(_, _, _, _)
+SkipDigits(s, n, i, radix) ==
+    IF i > n THEN i ELSE IF IsDigit(s[i], radix) THEN SkipDigits(s, n, i + 1, radix) ELSE i
+
+DigitTag(ph) == IF ph = "I" THEN "int" ELSE IF ph = "F" THEN "frac" ELSE "exp"
+
+BulkDigits(st, c0, cnt) ==
+    CASE st.ph = "I" -> [st EXCEPT !.nint = Cap2(st.nint + cnt),
+                                   !.lead0 = IF st.nint = 0 THEN c0 = CZero ELSE st.lead0, !.ld = TRUE]
+      [] st.ph = "F" -> [st EXCEPT !.nfrac = 1, !.ld = TRUE]
+      [] OTHER       -> [st EXCEPT !.nexp = 1, !.ld = TRUE]
+
+(* extend the last segment when it has the same tag and is adjacent *)
+AddSeg(segs, tag, lo, hi) ==
+    LET m == Len(segs) IN
+    IF m > 0 /\ segs[m][1] = tag /\ segs[m][3] = lo - 1
+    THEN [segs EXCEPT ![m] = << tag, segs[m][2], hi >>]
+    ELSE Append(segs, << tag, lo, hi >>)
+
+RECURSIVE RunSlowFrom(_, _, _, _, _, _, _, _)
+RunSlowFrom(k, f, o, s, n, i, st, segs) ==
+    IF i > n \/ st.ph \in {"R", "U"} THEN [st |-> st, segs |-> segs, stop |-> i]
     ELSE LET r == Step(k, f, o, st, s[i])
-         IN  RunFrom(k, f, o, s, n, i + 1, r.st, Append(tags, r.tag))
+         IN  RunSlowFrom(k, f, o, s, n, i + 1, r.st, AddSeg(segs, r.tag, i, i))
+RunSlow(k, f, o, s, n) == RunSlowFrom(k, f, o, s, n, 1, InitSt, << >>)
+
+RECURSIVE RunFrom(_, _, _, _, _, _, _, _)
+RunFrom(k, f, o, s, n, i, st, segs) ==
+    IF i > n \/ st.ph \in {"R", "U"} THEN [st |-> st, segs |-> segs, stop |-> i]
+    ELSE IF st.ph \in {"I", "F", "Y"} /\ st.sepn = 0 /\ IsDigit(s[i], CompRadix(f, CompOf(st.ph)))
+         THEN LET j == SkipDigits(s, n, i + 1, CompRadix(f, CompOf(st.ph)))
+              IN  RunFrom(k, f, o, s, n, j, BulkDigits(st, s[i], j - i), AddSeg(segs, DigitTag(st.ph), i, j - 1))
+         ELSE LET r == Step(k, f, o, st, s[i])
+              IN  RunFrom(k, f, o, s, n, i + 1, r.st, AddSeg(segs, r.tag, i, i))
 
 Run(k, f, o, s, n) == RunFrom(k, f, o, s, n, 1, InitSt, << >>)
 
-(* digit values of the bytes tagged `t`, in order *)
+(* digit values of the bytes in the segments tagged `t`, in order, as a tuple *)
+RangeDigits(s, lo, hi) == SubSeq([j \in 1..(hi - lo + 1) |-> DigitVal(s[lo + j - 1])], 1, hi - lo + 1)
 RECURSIVE DigitsTagged(_, _, _, _, _)
-DigitsTagged(s, tags, t, i, acc) ==
-    IF i > Len(tags) THEN acc
-    ELSE DigitsTagged(s, tags, t, i + 1, IF tags[i] = t THEN Append(acc, DigitVal(s[i])) ELSE acc)
+DigitsTagged(s, segs, t, i, acc) ==
+    IF i > Len(segs) THEN acc
+    ELSE DigitsTagged(s, segs, t, i + 1,
+                      IF segs[i][1] = t THEN acc \o RangeDigits(s, segs[i][2], segs[i][3]) ELSE acc)
 
 (* result of a complete scan: verdict + the number's parts *)
 ScanComplete(k, f, o, s, n) ==
     LET r   == Run(k, f, o, s, n)
         fin == Final(k, f, r.st, n)
     IN  [v |-> fin.v, why |-> fin.why, neg |-> r.st.neg, esign |-> r.st.esign,
-         int  |-> IF fin.v = "A" THEN DigitsTagged(s, r.tags, "int", 1, << >>) ELSE << >>,
-         frac |-> IF fin.v = "A" THEN DigitsTagged(s, r.tags, "frac", 1, << >>) ELSE << >>,
-         exp  |-> IF fin.v = "A" THEN DigitsTagged(s, r.tags, "exp", 1, << >>) ELSE << >>,
+         int  |-> IF fin.v = "A" THEN DigitsTagged(s, r.segs, "int", 1, << >>) ELSE << >>,
+         frac |-> IF fin.v = "A" THEN DigitsTagged(s, r.segs, "frac", 1, << >>) ELSE << >>,
+         exp  |-> IF fin.v = "A" THEN DigitsTagged(s, r.segs, "exp", 1, << >>) ELSE << >>,
          hassep |-> r.st.sepany]
 =============================================================================
